@@ -220,7 +220,12 @@ func checkC09(c ProgCase, o *h.Obs) *h.Fail {
 			continue
 		}
 		if s.Op == "gob" && len(s.Mut) > 0 {
-			continue // corrupted payloads are C17's business
+			// corrupted payloads are C17's business, except that whatever GobDecode accepts (the empty payload, the
+			// encoding of a nil pointer, included) goes into a receiver that keeps a non-zero precision and its mode
+			if !out.Rejects && zb.Prec != 0 && (za.Prec != zb.Prec || za.Mode != zb.Mode) {
+				return h.Failf("gob-sticky", "%s: accepted payload changed the receiver's precision %d -> %d, mode %v -> %v", stepString(i, s), zb.Prec, za.Prec, model.Mode(zb.Mode), model.Mode(za.Mode))
+			}
+			continue
 		}
 		// mode
 		modeMayChange := s.Op == "setmode" || sm.CopiesAttributes(s.Op)
